@@ -189,6 +189,22 @@ def build(backend, tier):
         if tn == "t_int":
             add(f"chain2:where:k{k1}:d{d}", f"ds.Select(lambda e: e.Roots('A').Where(lambda j: j.a().t_int() > 10).Count())", md, pre, whole=True)
             add(f"chain2:ev-vector:k{k1}:d{d}", f"ds.Select(lambda e: e.Roots('A').Select(lambda j: j.a().t_int()))", md, pre, col_types={"std::vector<int>"}, whole=True)
+    # ---- declarations that OVERRIDE a backend default: the executor pre-declares e.g. xAOD::TruthParticle::prodVtx as a
+    # pointer to a vertex; metadata that declares the same (type, method) differently must be the one honoured.  The
+    # collection's element type is given the default's type NAME (only a registry key: loops use `auto`).
+    dtype, dmeth = {"atlas": ("xAOD::TruthParticle", "prodVtx"), "cms_aod": ("reco::Muon", "globalTrack"), "cms_miniaod": ("pat::Muon", "globalTrack")}[backend]
+    dcoll = dict(coll_decl(backend), element_type=dtype)
+    for k1, d, tn in itertools.product((0, 1, 2), (None, 1), ("t_int", "t_double", "t_bool")):
+        links = [{"name": dmeth, "k": k1, "wrap": d or 0}]
+        md = [mti(dtype, dmeth, return_type="W1" + "*" * k1)] + term_md("W1", tn, d)
+        cases.append({"kind": f"override-default:k{k1}:d{d}:{tn}", "query": per.format(f"j.{dmeth}().{tn}()"), "md": tuple([dcoll] + md),
+                      "prelude": gen_prelude(backend, links), "col_types": TERMINALS[tn][3], "want_warning": None, "env_key": None,
+                      "ref_text": per.format(f"j.a().{tn}()")})
+    # the same (type, method) declared twice in one query with identical content is one declaration
+    for k1 in (0, 1):
+        links = [{"name": "a", "k": k1, "wrap": 0}]
+        md = [mti("Root", "a", return_type="W1" + "*" * k1)] * 2 + term_md("W1", "t_int", None) * 2
+        add(f"declared-twice-identically:k{k1}", "j.a().t_int()", md, gen_prelude(backend, links), col_types={"int"})
     # ---- two deref counts on one type: the wrapper's own method (deref 0) and the payload's (deref d)
     for k1, d in itertools.product((0, 1, 2), (1, 2)):
         links = [{"name": "a", "k": k1, "wrap": d}]
@@ -305,7 +321,7 @@ def post(outs, events):
             if not j.events:
                 continue
             er = j.events[0]
-            r = classify_event(c.text.replace("e.Roots('A')", "e.Roots('A')"), events[er.event], er, extra_env=env)
+            r = classify_event(info.get("ref_text") or c.text, events[er.event], er, extra_env=env)
             stats["executions"] += 1
             if r is None:
                 stats["agree"] += 1
